@@ -3,7 +3,8 @@
 Each entry: name -> builder(rng, variant) returning (callable, args tuple, kwargs dict).
 `variant` selects the memory layout / boundary form of the array arguments:
   plain | fortran | view (non-contiguous, negative stride) | readonly | singleton | empty | extreme |
-  tview (axes reversed inside a padded parent) | midsingle (a single-element axis that is not trailing, tview layout)
+  tview (axes reversed inside a padded parent) | midsingle (a single-element axis that is not trailing, tview layout) |
+  dtype-int64 | dtype-int32 | dtype-float32 | dtype-uint8 (every array argument stored in that dtype)
 A builder may raise Skip when a variant makes no sense for the routine.
 All argument objects must be reachable from (args, kwargs) so that they are snapshotted.
 """
@@ -14,7 +15,8 @@ class Skip(Exception):
     pass
 
 
-VARIANTS = ["plain", "fortran", "view", "readonly", "singleton", "empty", "extreme", "tview", "midsingle"]
+VARIANTS = ["plain", "fortran", "view", "readonly", "singleton", "empty", "extreme", "tview", "midsingle",
+            "dtype-int64", "dtype-int32", "dtype-float32", "dtype-uint8"]
 # layouts whose arrays are views into a larger padded parent buffer: the worker calls these twice with
 # different padding values (results must not depend on the padding = no reads outside the view) and checks
 # that the padding is intact afterwards (no writes outside the view)
@@ -36,6 +38,12 @@ def lay(a, variant):
     a = np.array(a)
     if variant == "plain":
         return a
+    if variant.startswith("dtype-"):        # same values (as far as representable) stored in another dtype
+        dt = np.dtype(variant[6:])
+        if a.dtype == object:
+            return a
+        with np.errstate(all="ignore"):
+            return (np.abs(a) if dt.kind == "u" and a.dtype != np.bool_ else a).astype(dt)
     if variant == "fortran":
         return np.asfortranarray(a)
     if variant == "view":
@@ -252,6 +260,62 @@ def _(rng, v):
         R = HistogramRegistration(im, im, from_bins=4, to_bins=4, interp="pv")
         return R.eval(Affine())
     return f, (img,), {}
+
+
+@entry("HistogramRegistration with unequal bin counts, every similarity and interpolation, random affine")
+def _(rng, v):
+    from nipy.algorithms.registration.histogram_registration import HistogramRegistration
+    from nipy.algorithms.registration.affine import Affine
+    from nipy.core.api import Image
+    from nipy.core.reference.spaces import vox2mni
+    if v in ("empty", "singleton", "midsingle", "extreme"):
+        raise Skip()
+    d1 = data(rng, v, (5, 6, 4), lo=0, hi=60)
+    d2 = data(rng, v, (5, 6, 4), lo=0, hi=60)
+    im1, im2 = Image(d1, vox2mni(np.eye(4))), Image(d2, vox2mni(np.diag([1.1, 0.9, 1., 1.])))
+    fb, tb = (int(x) for x in rng.choice([2, 3, 5, 8, 17, 32, 40], 2, replace=False))   # never equal
+    sims = ["cc", "cr", "crl1", "mi", "nmi", "pmi", "dpmi"]
+    sim = sims[int(rng.integers(0, len(sims)))]
+    interp = ["pv", "tri", "rand"][int(rng.integers(0, 3))]
+    T = Affine(np.concatenate([rng.uniform(-1.5, 1.5, 3), rng.uniform(-0.2, 0.2, 3), rng.uniform(-0.1, 0.1, 3), rng.uniform(-0.05, 0.05, 3)]))
+
+    def f(im1, im2):
+        out = []
+        for a, b in ((fb, tb), (tb, fb)):
+            R = HistogramRegistration(im1, im2, from_bins=a, to_bins=b, similarity=sim, interp=interp)
+            out.append(R.eval(T))
+            out.append(R.eval(Affine()))
+        return out
+    return f, (im1, im2), {}
+
+
+@entry("PolyAffine.apply / compose: points on, near and far from every centre; tiny, zero and huge kernel widths")
+def _(rng, v):
+    from nipy.algorithms.registration.polyaffine import PolyAffine
+    from nipy.algorithms.registration.affine import Affine
+    if v in ("empty",):
+        raise Skip()
+    nc = int(rng.integers(1, 4))
+    centers = data(rng, v if v in ("plain", "fortran", "view", "tview", "readonly") else "plain", (nc, 3))
+    affs = [Affine(np.concatenate([rng.uniform(-2, 2, 3), rng.uniform(-0.3, 0.3, 3), rng.uniform(-0.1, 0.1, 6)])) for _ in range(nc)]
+    pts = data(rng, v, (9, 3))
+    if pts.ndim == 2 and pts.shape[0] >= 6 and v != "extreme":
+        pts = np.array(pts)
+        pts[0] = np.array(centers)[0]                 # exactly on a centre
+        pts[1] = np.array(centers)[0] + 1e-9
+        pts[2] = [400., -300., 250.]                  # far (> 38 sigma) from every centre: every exp underflows
+        pts[3] = [1e6, 1e6, -1e6]
+        pts = lay(pts, v)
+    sig = [float(x) for x in rng.choice([0.0, 1e-300, 1e-3, 1.0, 5.0, 1e3, 1e300], 3)]
+
+    def f(centers, pts):
+        out = []
+        for sigma in (sig, 1.0, 0.0, 1e300):
+            P = PolyAffine(centers, affs, sigma)
+            out.append(P.apply(pts))
+            out.append(P.compose(Affine()).apply(pts) if hasattr(P, "compose") else None)
+        return out
+    return f, (centers, pts), {}
 
 
 @entry("_joint_histogram kernel: coordinates on, across and far beyond both grid borders, pv/tri/rand")
